@@ -838,6 +838,332 @@ fn parser_job(size: usize, paren_size: usize, stride: usize, viols: &mut Vec<Val
     json!({"trees": trees.len(), "size": size, "printings_parsed": printed, "factorings_parsed": factored, "distinct_texts": distinct_texts.len(), "samples": samples})
 }
 
+// ------------------------------------------------------------------ the repository's own lexers (REGRESS corpus)
+
+/// Extract the bodies of all `lexer! { … }` invocations of a Rust source file.
+fn extract_lexers(src: &str) -> Vec<String> {
+    let b: Vec<char> = src.chars().collect();
+    let mut out = vec![];
+    let mut i = 0;
+    let pat: Vec<char> = "lexer!".chars().collect();
+    while i + pat.len() < b.len() {
+        if b[i..i + pat.len()] == pat[..] {
+            let mut j = i + pat.len();
+            while j < b.len() && b[j].is_whitespace() {
+                j += 1;
+            }
+            if j < b.len() && b[j] == '{' {
+                // balanced braces, skipping string / char literals and comments
+                let start = j + 1;
+                let mut depth = 1;
+                let mut k = start;
+                while k < b.len() && depth > 0 {
+                    match b[k] {
+                        '/' if k + 1 < b.len() && b[k + 1] == '/' => {
+                            while k < b.len() && b[k] != '\n' {
+                                k += 1;
+                            }
+                            continue;
+                        }
+                        '"' => {
+                            k += 1;
+                            while k < b.len() && b[k] != '"' {
+                                if b[k] == '\\' {
+                                    k += 1;
+                                }
+                                k += 1;
+                            }
+                        }
+                        '\'' => {
+                            // char literal (not a lifetime): 'x' or '\..'
+                            if k + 2 < b.len() && (b[k + 1] == '\\' || b[k + 2] == '\'') {
+                                k += 1;
+                                if b[k] == '\\' {
+                                    k += 1;
+                                }
+                                while k < b.len() && b[k] != '\'' {
+                                    k += 1;
+                                }
+                            }
+                        }
+                        '{' => depth += 1,
+                        '}' => depth -= 1,
+                        _ => {}
+                    }
+                    k += 1;
+                }
+                if depth == 0 {
+                    out.push(b[start..k - 1].iter().collect());
+                }
+                i = k;
+                continue;
+            }
+        }
+        i += 1;
+    }
+    out
+}
+
+fn ast_to_spec(l: &ast::Lexer) -> Result<refmodel::spec::Spec, String> {
+    use refmodel::spec::*;
+    let mut spec = Spec { lets: vec![], sets: vec![], named: false, decl_order: vec![], family: "repo_tests", set_names: vec![] };
+    let conv_rule = |r: &ast::SingleRule| Rule { re: ast_to_re(&r.lhs.re), ctx: r.lhs.right_ctx.as_ref().map(ast_to_re), kind: Kind::Act(D_RETURN) };
+    let mut unnamed: Vec<Rule> = vec![];
+    for item in &l.rules {
+        match item {
+            ast::Rule::ErrorType { .. } => {}
+            ast::Rule::RuleOrBinding(ast::RuleOrBinding::Binding(b)) => {
+                if !spec.sets.is_empty() || !unnamed.is_empty() {
+                    return Err("top-level let after rules: scoping by position not modelled".into());
+                }
+                spec.lets.push((b.var.0.clone(), ast_to_re(&b.re)));
+            }
+            ast::Rule::RuleOrBinding(ast::RuleOrBinding::Rule(r)) => unnamed.push(conv_rule(r)),
+            ast::Rule::RuleSet { name, rules } => {
+                spec.named = true;
+                let mut rs = RuleSet::default();
+                for rb in rules {
+                    match rb {
+                        ast::RuleOrBinding::Binding(b) => rs.lets.push((b.var.0.clone(), ast_to_re(&b.re))),
+                        ast::RuleOrBinding::Rule(r) => rs.rules.push(conv_rule(r)),
+                    }
+                }
+                spec.set_names.push(name.to_string());
+                spec.sets.push(rs);
+            }
+        }
+    }
+    if !spec.named {
+        spec.sets.push(RuleSet { lets: vec![], rules: unnamed });
+    }
+    if spec.sets.is_empty() {
+        return Err("no rules".into());
+    }
+    Ok(spec)
+}
+
+/// Every `lexer!` block of the repository's test files (incl. the Lua 5.1 lexer), compiled by
+/// the real pipeline and explored against derivatives over all strings.
+fn corpus_job(cap: u64, viols: &mut Vec<Value>) -> Value {
+    use refmodel::product::{explore_spec, Stats};
+    use syn::parse::Parser;
+    let mut files: Vec<String> = vec![];
+    for dir in ["/repo/crates/lexgen/tests", "/repo/crates/lexgen_lalrpop_example/src", "/repo/crates/lexgen/benches"] {
+        if let Ok(rd) = std::fs::read_dir(dir) {
+            for e in rd.flatten() {
+                let p = e.path();
+                if p.extension().map(|x| x == "rs").unwrap_or(false) {
+                    files.push(p.to_string_lossy().to_string());
+                }
+            }
+        }
+    }
+    files.sort();
+    let (mut found, mut explored, mut skipped, mut capped) = (0u64, 0u64, vec![], 0u64);
+    let mut st = Stats::default();
+    let mut biggest = (0usize, String::new());
+    for f in &files {
+        let Ok(src) = std::fs::read_to_string(f) else { continue };
+        for (bi, body) in extract_lexers(&src).into_iter().enumerate() {
+            found += 1;
+            let name = format!("{}#{}", f.rsplit('/').next().unwrap_or(f), bi);
+            let parsed = std::panic::catch_unwind(|| {
+                let mut sat = crate::semantic_action_table::SemanticActionTable::new();
+                let r = ast::make_lexer_parser(&mut sat).parse_str(&body);
+                r.map_err(|e| e.to_string())
+            });
+            let lexer = match parsed {
+                Ok(Ok(l)) => l,
+                _ => {
+                    skipped.push(json!({"lexer": name, "why": "does not parse outside its file (uses outer macros?)"}));
+                    continue;
+                }
+            };
+            let spec = match ast_to_spec(&lexer) {
+                Ok(s) => s,
+                Err(e) => {
+                    skipped.push(json!({"lexer": name, "why": e}));
+                    continue;
+                }
+            };
+            // rules that match the empty string are outside the well-formed family
+            let nullable = spec.sets.iter().enumerate().any(|(si, set)| {
+                let env = spec.env_of_set(si);
+                set.rules.iter().any(|r| std::panic::catch_unwind(|| r.re.subst(&env).nullable_syn()).unwrap_or(true))
+            });
+            if nullable {
+                skipped.push(json!({"lexer": name, "why": "a rule matches the empty string (or uses an unbound variable)"}));
+                continue;
+            }
+            let c = std::panic::catch_unwind(|| px_compile::compile_text(&body, false));
+            let dump = match c {
+                Ok(Ok(c)) => match Dump::parse(&c.dump) {
+                    Ok(d) => d,
+                    Err(e) => {
+                        viols.push(json!({"kind": "panic", "definition": name, "input": null, "detail": format!("dump does not parse: {e}")}));
+                        continue;
+                    }
+                },
+                _ => {
+                    skipped.push(json!({"lexer": name, "why": "pipeline rejects it (a test of a rejected definition?)"}));
+                    continue;
+                }
+            };
+            let mut s1 = Stats::default();
+            let vs = std::panic::catch_unwind(|| {
+                let mut s1 = Stats::default();
+                let v = explore_spec(&spec, &dump, &mut s1, cap);
+                (v, s1)
+            });
+            let (vs, s1) = match vs {
+                Ok(x) => x,
+                Err(_) => {
+                    skipped.push(json!({"lexer": name, "why": "reference model cannot express it"}));
+                    continue;
+                }
+            };
+            explored += 1;
+            st.states += s1.states;
+            st.transitions += s1.transitions;
+            st.ctx_states += s1.ctx_states;
+            st.rewind_obligations += s1.rewind_obligations;
+            if s1.capped {
+                capped += 1;
+            }
+            if dump.states.len() > biggest.0 {
+                biggest = (dump.states.len(), name.clone());
+            }
+            let mut kinds = HashSet::new();
+            for v in vs {
+                let k = format!("{:?}", v.kind).to_lowercase();
+                if kinds.insert(k.clone()) && viols.len() < 20 {
+                    viols.push(json!({"kind": match v.kind {
+                        refmodel::product::ViolKind::Viability => "viability", refmodel::product::ViolKind::Accept => "accept", refmodel::product::ViolKind::Rewind => "rewind",
+                        refmodel::product::ViolKind::EoiNonTerminal => "eoi", refmodel::product::ViolKind::Ctx => "ctx", refmodel::product::ViolKind::Entry => "entry", refmodel::product::ViolKind::Foreign => "foreign" },
+                        "definition": format!("{name}: {}", spec.describe().chars().take(300).collect::<String>()), "input": v.path_string(), "path": v.show_path(), "detail": v.detail, "set": v.set}));
+                }
+            }
+        }
+    }
+    json!({"files": files.len(), "lexers_found": found, "explored": explored, "skipped": skipped, "capped": capped, "states": st.states, "ctx_states": st.ctx_states,
+           "transitions": st.transitions, "rewind_obligations": st.rewind_obligations, "largest": {"dfa_states": biggest.0, "lexer": biggest.1}})
+}
+
+// ------------------------------------------------------------------ interchangeability (C02)
+
+/// Equivalent regexes placed at every position of every context, beside a second rule: the two
+/// compiled automata are explored as a product against each other (no reference involved).
+fn equiv_job(k: usize, viols: &mut Vec<Value>) -> Value {
+    use refmodel::enumerate::{atoms6, re_upto};
+    use refmodel::product::{equivalent, Stats};
+    use refmodel::re::*;
+    use std::sync::atomic::{AtomicU64, AtomicUsize, Ordering};
+    use std::sync::Mutex;
+    let rs = re_upto(k, &atoms6());
+    let ts = [ch('c'), plus(ch('a')), st("ab")];
+    // (lhs, rhs, lets for lhs side, what)
+    let mut pairs: Vec<(Re, Re, Vec<(String, Re)>, &'static str)> = vec![];
+    for r in &rs {
+        pairs.push((plus(r.clone()), cat(r.clone(), star(r.clone())), vec![], "r+ = r r*"));
+        pairs.push((var("v"), r.clone(), vec![("v".to_string(), r.clone())], "$v = its definition"));
+        pairs.push((opt(r.clone()), alt(r.clone(), opt(r.clone())), vec![], "r? = r | r?"));
+        for s in rs.iter().take(12) {
+            pairs.push((alt(r.clone(), s.clone()), alt(s.clone(), r.clone()), vec![], "r|s = s|r"));
+        }
+    }
+    for w in ["ab", "ba", "abc", "aab", "a"] {
+        let cs: Vec<char> = w.chars().collect();
+        let mut c = ch(cs[0]);
+        for x in &cs[1..] {
+            c = cat(c, ch(*x));
+        }
+        pairs.push((st(w), c, vec![], "string = concatenation of its characters"));
+    }
+    type Ctx = fn(Re, &Re) -> Re;
+    let ctxs: Vec<(&str, Ctx)> = vec![
+        ("[]", |x, _| x),
+        ("[] t", |x, t| cat(x, t.clone())),
+        ("t []", |x, t| cat(t.clone(), x)),
+        ("([])* t", |x, t| cat(star(x), t.clone())),
+        ("[] | t", |x, t| alt(x, t.clone())),
+        ("t ([])+", |x, t| cat(t.clone(), plus(x))),
+    ];
+    let seconds: Vec<Option<Re>> = vec![None, Some(plus(ch('a'))), Some(Re::Any)];
+    let mut jobs: Vec<(String, String, String)> = vec![];
+    for (l, r, lets, what) in &pairs {
+        for (cname, c) in &ctxs {
+            for t in &ts {
+                let (cl, cr) = (c(l.clone(), t), c(r.clone(), t));
+                let env: Env = lets.iter().cloned().collect();
+                if cl.subst(&env).nullable_syn() || cr.nullable_syn() {
+                    continue;
+                }
+                for (si, sec) in seconds.iter().enumerate() {
+                    if si > 0 && *cname != "[]" && *cname != "[] t" {
+                        continue;
+                    }
+                    let mk = |x: &Re, lets: &[(String, Re)], first: bool| -> String {
+                        let mut s = String::from("L -> usize;\n");
+                        for (n, r) in lets {
+                            s += &format!("let {n} = {};\n", print_min(r));
+                        }
+                        let a = format!("{} = 0,\n", print_min(x));
+                        let b = sec.as_ref().map(|r| format!("{} = 1,\n", print_min(r))).unwrap_or_default();
+                        if first { s + &a + &b } else { s + &b + &a }
+                    };
+                    for first in [true, false] {
+                        if !first && sec.is_none() {
+                            continue;
+                        }
+                        jobs.push((mk(&cl, lets, first), mk(&cr, &[], first), format!("{what} in context {cname} with t = {}", print_min(t))));
+                    }
+                }
+                if *cname == "[]" {
+                    break;
+                }
+            }
+        }
+    }
+    let next = AtomicUsize::new(0);
+    let states = AtomicU64::new(0);
+    let trans = AtomicU64::new(0);
+    let found: Mutex<Vec<Value>> = Mutex::new(vec![]);
+    std::thread::scope(|sc| {
+        for _ in 0..16 {
+            sc.spawn(|| loop {
+                let i = next.fetch_add(1, Ordering::SeqCst);
+                if i >= jobs.len() {
+                    break;
+                }
+                let (a, b, what) = &jobs[i];
+                let r = std::panic::catch_unwind(|| (px_compile::compile_text(a, false), px_compile::compile_text(b, false)));
+                let bad = match r {
+                    Ok((Ok(ca), Ok(cb))) => match (Dump::parse(&ca.dump), Dump::parse(&cb.dump)) {
+                        (Ok(da), Ok(db)) => {
+                            let mut st = Stats::default();
+                            let res = equivalent(&da, &db, &mut st, 100_000);
+                            states.fetch_add(st.states, Ordering::Relaxed);
+                            trans.fetch_add(st.transitions, Ordering::Relaxed);
+                            res.err().map(|(path, d)| (path.iter().filter_map(|s| if let refmodel::deriv::Sym::Ch(c) = s { char::from_u32(*c) } else { None }).collect::<String>(), d))
+                        }
+                        _ => Some((String::new(), "dump does not parse".into())),
+                    },
+                    _ => Some((String::new(), "one side does not compile".into())),
+                };
+                if let Some((input, d)) = bad {
+                    let mut f = found.lock().unwrap();
+                    if f.len() < 20 {
+                        f.push(json!({"kind": "interchange", "definition": format!("{a}-- versus --\n{b}"), "input": input, "detail": format!("{what}: {d}")}));
+                    }
+                }
+            });
+        }
+    });
+    viols.extend(found.into_inner().unwrap());
+    json!({"rewrite_pairs": pairs.len(), "definition_pairs": jobs.len(), "states": states.into_inner(), "transitions": trans.into_inner(),
+           "samples": jobs.iter().step_by(jobs.len() / 3 + 1).map(|j| json!({"lhs": j.0, "rhs": j.1, "what": j.2})).collect::<Vec<_>>()})
+}
+
 pub fn main(a: &[String]) {
     let cmd = a.get(1).map(|s| s.as_str()).unwrap_or("");
     std::panic::set_hook(Box::new(|_| {}));
@@ -862,6 +1188,14 @@ pub fn main(a: &[String]) {
             json!({"regress": reg, "enumerated": e})
         }
         "builtins" => builtins_job(&mut viols),
+        "corpus" => {
+            let cap: u64 = a.get(2).and_then(|s| s.parse().ok()).unwrap_or(300_000);
+            corpus_job(cap, &mut viols)
+        }
+        "equiv" => {
+            let k: usize = a.get(2).and_then(|s| s.parse().ok()).unwrap_or(2);
+            equiv_job(k, &mut viols)
+        }
         "parser" => {
             let size: usize = a.get(2).and_then(|s| s.parse().ok()).unwrap_or(4);
             let psize: usize = a.get(3).and_then(|s| s.parse().ok()).unwrap_or(3);
